@@ -298,3 +298,52 @@ def run(ck, prog):
     _run_pre_progress(ck, prog)
     from sa import progress
     progress.run_rule(ck, prog, set(DIMENSION_FILES))
+
+
+# ------------------------------------------------------------------ BBD tree filter: centroids are addressed through the candidate list
+_run_pre_filter = run
+
+
+def filter_candidates(ck, prog):
+    """filter() works on the candidate list of the current cell (centroid numbers that survived pruning higher up): a centroid
+    compared with the cell centre is centroids[candidates[i]] - never centroids[i] or centroids[0], which may already have been
+    pruned away. Index-indirection rule on the distance computations of BBDTree::filter."""
+    rule, inst = "E2-indirection", "BBDTree::filter compares the cell centre with centroids[candidates[..]]"
+    b = prog.bodies.get("algorithm::neighbour::bbd_tree::BBDTree::<T>::filter")
+    if b is None:
+        ck.violation(rule, inst, "filter", "", expected="anchor exists", found="anchor vanished")
+        return
+    res = Resolver(b)
+    n = 0
+    for bd in [b] + prog.closures_of.get(b.path, []):
+        rs = Resolver(bd)
+        for bb, t in bd.calls():
+            f = t.get("f")
+            if not (f and f["path"].endswith("squared_distance")):
+                continue
+            for a in t["args"]:
+                tm = rs.operand(a)
+                for s in subterms(tm):
+                    if s[0] == "idx" and ((s[1][0] == "arg" and s[1][1] == 3) or (s[1][0] == "upvar" and s[1][1] == "centroids")):
+                        n += 1
+                        ix = s[2]
+                        # through candidates: candidates[i], or an item of an iterator over candidates, or (in a closure) a parameter
+                        through = any((x[0] == "arg" and x[1] == 4 and bd is b) or (x[0] == "upvar" and x[1] == "candidates") for x in subterms(ix)) \
+                            or any(x[0] == "arg" and bd is not b for x in subterms(ix))
+                        raw = ix[0] == "int" or (ix[0] == "field" and ix[2] == "0" and ix[1][0] == "variant" and not through)
+                        if raw and not through:
+                            ck.violation(rule, inst, bd.path, bd.where(bb), ordinal=n,
+                                         expected="the centroid number comes from the candidate list of this cell",
+                                         found=f"centroids[{render(ix)[:60]}] is addressed by a raw number: that centroid may have been pruned for this cell")
+                        else:
+                            ck.ok(rule, inst, bd.path, bd.where(bb), f"centroids[{render(ix)[:60]}]")
+    if n == 0:
+        ck.note(f"{inst}: no distance to an indexed centroid in filter: no instance")
+
+
+def run(ck, prog):
+    _run_pre_filter(ck, prog)
+    filter_candidates(ck, prog)
+
+
+EXPLANATION += (' (E) BBDTree::filter addresses centroids through the candidate list of the cell (centroids[candidates[..]]), never by a raw number.')
